@@ -479,6 +479,10 @@ static std::string step(const Toks& t)
 	if (op == "m3mul" && n == 18) return show(m3of(v) * m3of(v, 9));
 	if (op == "m3tr" && n == 9) return show(m3of(v).transposed());
 	if (op == "m3v3" && n == 12) return show(m3of(v) * Vec3_<Fp>(v[9], v[10], v[11]));
+	if (op == "v3cross" && n == 6) return show(Vec3_<Fp>(v[0], v[1], v[2]) ^ Vec3_<Fp>(v[3], v[4], v[5]));
+	if (op == "v3dot" && n == 6) return fs(Vec3_<Fp>(v[0], v[1], v[2]) * Vec3_<Fp>(v[3], v[4], v[5]));
+	if (op == "v3lin" && n == 7) { Vec3_<Fp> a(v[0], v[1], v[2]), b(v[3], v[4], v[5]); return show(a + b * v[6] - b); }
+	if (op == "v3len2" && n == 3) return fs(Vec3_<Fp>(v[0], v[1], v[2]).length2());
 	if (op == "qmat" && n == 4) return show(Q(v[0], v[1], v[2], v[3]).matrix());
 	if (op == "qmul" && n == 8) return show(Q(v[0], v[1], v[2], v[3]) ^ Q(v[4], v[5], v[6], v[7]));
 	if (op == "qconj" && n == 4) return show(Q(v[0], v[1], v[2], v[3]).conj());
